@@ -677,14 +677,6 @@ namespace Compass
 namespace C09
 open Src
 
-/-! ### Source decision ties
-
-The relational operators at the named comparison sites of the Rust source are re-extracted on every run
-by `tools/gen_model.py` into `Compass/Gen/Decisions.lean` (`Src.<site> : Src.Rel`).  Each theorem below
-says that the hand-written model decides at that site by exactly the operator the source has there
-(`Rel.nat` / `Rel.int` / `Rel.num` interpret the extracted operator; an unrecognised line is `none`).  A
-source change that turns `<` into `<=`, `>` into `>=`, … at a site changes the generated constant and this
-proof obligation stops checking, whether or not a generated case lands on the tie. -/
 
 
 
